@@ -175,6 +175,7 @@ class Peer(object):
         self.sock = sock
         self.case = case
         self.dev = dict(case['dev'])
+        self.cmdlog = []      # (command kind, [what the script answered]) in arrival order: mail / rcpt / data / body / empty / rset
         self.log = []
         self.nrcpt = 0
         self.accepted = 0
@@ -256,10 +257,12 @@ class Peer(object):
                     self.dev = dict(self.case['second'])
                 self.nrcpt = 0
                 self.accepted = 0
+                self.cmdlog.append(('mail', [self.out('mail', '250')]))
                 if not self.answer('mail', '250'):
                     return
             elif cmd == b'RCPT':
                 oc = self.out('rcpt%d' % self.nrcpt, '250')
+                self.cmdlog.append(('rcpt', [oc]))
                 if oc[:1] == '2':
                     self.accepted += 1
                 if not self.answer('rcpt%d' % self.nrcpt, '250'):
@@ -267,15 +270,23 @@ class Peer(object):
                 self.nrcpt += 1
             elif cmd == b'DATA':
                 oc = self.out('data', '354')
+                self.cmdlog.append(('data', [oc]))
                 if not self.answer('data', '354'):
                     return
                 if oc == '354':
+                    nlines = 0
                     while True:
                         l = f.readline()
                         if not l:
                             return
                         if l in (b'.\r\n', b'.\n'):
                             break
+                        nlines += 1
+                    if self.case['lmtp']:
+                        ans = [self.out('eod' if i == 0 else 'eod%d' % i, '250') for i in range(self.accepted)]
+                    else:
+                        ans = [self.out('eod', '250')]
+                    self.cmdlog.append(('body' if nlines else 'empty', ans))
                     if self.case['lmtp']:
                         for i in range(self.accepted):
                             if not self.answer('eod' if i == 0 else 'eod%d' % i, '250'):
@@ -283,6 +294,7 @@ class Peer(object):
                     elif not self.answer('eod', '250'):
                         return
             elif cmd == b'RSET':
+                self.cmdlog.append(('rset', [self.out('rset', '250')]))
                 if not self.answer('rset', '250'):
                     return
             elif cmd == b'QUIT':
@@ -345,6 +357,15 @@ def run_smtp(case, model):
     res2 = None
     if 'second' in case:
         res2 = run_attempt(relay, make_env(case['nr']))
+    # the result is set before the client has finished with the connection (RSET after a failure, QUIT): let it
+    last, quiet = None, 0
+    for _ in range(80):
+        gevent.sleep(0.004)
+        cur = sum(len(p.cmdlog) + len(p.log) for p, _ in peers)
+        quiet = quiet + 1 if cur == last else 0
+        last = cur
+        if quiet >= 4:
+            break
     for p, g in peers:
         g.kill(block=False)
     for c in list(relay.pool):
@@ -355,6 +376,27 @@ def run_smtp(case, model):
     tags = ['lmtp' if case['lmtp'] else 'smtp', 'pipelining' if case['pipelining'] else 'no-pipelining', 'nr=%d' % case['nr'], res.split(':')[0]]
     if case.get('dupaddr'):
         tags.append('duplicate-recipient')
+    # the commands each connection saw vs the command-level model (Model/RelaySession.lean), fed with the answers the script gave
+    if mismatch is None and not case.get('utf8addr') and not case.get('body8bit'):
+        for p, _ in peers:
+            if not p.cmdlog:
+                continue
+            seen = [c for c, _ in p.cmdlog]
+            answers = []
+            broken = False
+            for c, outs in p.cmdlog:
+                for o in outs:
+                    ok = o.isdigit() and o != '000'
+                    answers.append(o if ok else 'x')
+                    broken = broken or not ok
+            nmsg = seen.count('mail')
+            mc = model.ask('relaysession session %d %d %s %s' % (case['lmtp'], case['pipelining'], ','.join([str(case['nr'])] * nmsg), ','.join(answers) or '-'))
+            want = [] if mc == '-' else mc.split(',')
+            same = (seen == want[:len(seen)]) if broken else (seen == want)
+            if not same:
+                mismatch = {'op': 'relaysession session', 'impl': seen, 'model': want, 'answers': answers}
+                break
+            tags.append('commands-compared')
     if res2 is not None:
         tags.append('second-message')
         # the second message: over the same connection when the first one left it usable (then no banner / EHLO stage), over a
